@@ -67,15 +67,6 @@ def r04_2_field_tables(ctx):
     ctx.require_min("R04.2", 130)
 
 
-def run(ctx):
-    r04_1_op_table(ctx)
-    r04_2_field_tables(ctx)
-    return (
-        "Static comparison of PyTeal's op and field tables (extracted from the syntax tree) with an independent AVM "
-        "reference table; version/field gating, immediate provenance, final sweep, placeholder and label rules."
-    )
-
-
 # ------------------------------------------------------------------------------------------
 from rules.emitcommon import get_sites  # noqa: E402
 from sa.astutil import allowed_interval, try_const, INF  # noqa: E402
@@ -211,15 +202,308 @@ def r04_4_immediates(ctx):
     ctx.require_min("R04.4", 30)
 
 
-_run0 = run
+
+# ------------------------------------------------------------------------------------------
+from sa import q  # noqa: E402
+from sa.astutil import walk_local  # noqa: E402
+from sa.minieval import MiniEval, OpVal, Raised, Rec, Sym, Unknown, run_function  # noqa: E402
+import re  # noqa: E402
+
+
+def r04_0_op_accessors(ctx):
+    ctx.rule("R04.0", "the Op enum's accessors read the row they belong to: OpType fields are (value, mode, min_version) in the order the rows are written, Op.mode / Op.min_version / str(Op) return those fields")
+    m = ctx.model.module("pyteal.ir.ops")
+    ot = ctx.model.find_class("OpType", "pyteal.ir.ops")
+    fields = [st.target.id for st in ot.node.body if isinstance(st, ast.AnnAssign) and isinstance(st.target, ast.Name)]
+    ctx.check(fields == ["value", "mode", "min_version"], "R04.0", "OpType:fields", f"OpType fields {fields} must be (value, mode, min_version): every Op row is written positionally in that order", ot.where, fact={"fields": fields})
+    op = ctx.model.find_class("Op", "pyteal.ir.ops")
+    want = {"mode": "self.value.mode", "min_version": "self.value.min_version", "__str__": "self.value.value"}
+    for name, expr in want.items():
+        f = q.need(op.methods.get(name), f"Op.{name} vanished")
+        rets = q.returns_of(f.node)
+        ctx.check(len(rets) == 1 and u(rets[0].value) == expr, "R04.0", f"Op.{name}", f"Op.{name} must return {expr}; returns {[u(r.value) for r in rets]}", f.where, fact={"returns": [u(r.value) for r in rets]})
+    ctx.require_min("R04.0", 4)
+
+
+def _mode_sym():
+    return Sym("Mode", attrs={"Signature": 1, "Application": 2})
+
+
+def r04_5_final_sweep(ctx):
+    ctx.rule("R04.5", "the version range is checked first; every path of _compile_impl to assembly passes through verifyOpsForVersion and verifyOpsForMode on the final component list; both refuse any op whose min version exceeds the target / whose modes exclude the target; constant blocks are created only for version >= 3")
+    f = ctx.model.find_func("Compilation._compile_impl", "pyteal.compiler.compiler")
+    vv = ctx.model.find_func("verifyOpsForVersion", "pyteal.compiler.compiler")
+    vm = ctx.model.find_func("verifyOpsForMode", "pyteal.compiler.compiler")
+    ctx.analysed(f.fq, vv.fq, vm.fq)
+    TEALOP = Rec("name", "TealOp")
+
+    def comp(v, modes):
+        o = Sym(f"op(v{v},modes{modes})", attrs={"min_version": v, "mode": modes, "name": "x"})
+        return Sym("teal-op", attrs={"$isa": {"TealOp", "TealComponent"}}, methods={"getOp": lambda: o})
+
+    label = Sym("teal-label", attrs={"$isa": {"TealLabel", "TealComponent"}})
+    oracle = lambda e, me: (_ for _ in ()).throw(Unknown())
+    # verifyOpsForVersion: refuse iff some op has min_version > version, wherever it sits
+    for pos in (0, 1, 2):
+        for opv, target, want_raise in ((5, 4, True), (5, 5, False), (2, 10, False), (11, 10, True), (3, 2, True)):
+            lst = [comp(2, 3), label, comp(2, 3)]
+            lst[pos if pos != 1 else 2] = comp(opv, 3)
+            try:
+                run_function(vv.node, {"teal": lst, "version": target}, oracle, vv.fq, permissive=True)
+                raised = None
+            except Raised as r:
+                raised = r.exc_text
+            ok = (raised is not None and "TealInputError" in raised) if want_raise else raised is None
+            ctx.check(ok, "R04.5", f"verifyOpsForVersion[op v{opv} at {pos}, target v{target}]", f"{'accepted' if raised is None else 'refused with ' + raised[:40]}; an op of min version {opv} {'must be refused' if want_raise else 'is legal'} at version {target}", vv.where, fact={"raised": raised is not None})
+    M = _mode_sym()
+    for pos in (0, 2):
+        for modes, target, want_raise in ((1, 2, True), (2, 1, True), (3, 1, False), (3, 2, False), (2, 2, False), (1, 1, False)):
+            lst = [comp(2, 3), label, comp(2, 3)]
+            lst[pos] = comp(2, modes)
+            tgt = Sym("Mode.x", attrs={"name": "x"})
+            try:
+                # Mode is a Flag: model its members as bit masks so that `op.mode & mode` is evaluated by the fragment itself
+                run_function(vm.node, {"teal": lst, "mode": target}, lambda e, me: (_ for _ in ()).throw(Unknown()), vm.fq, permissive=True)
+                raised = None
+            except Raised as r:
+                raised = r.exc_text
+            except AnalysisError as e:
+                if "attribute" in str(e) and "name" in str(e):
+                    raised = "TealInputError (message formatting reached)"
+                else:
+                    raise
+            ok = (raised is not None and "TealInputError" in raised) if want_raise else raised is None
+            ctx.check(ok, "R04.5", f"verifyOpsForMode[op modes {modes:02b} at {pos}, target {target:02b}]", f"{'accepted' if raised is None else 'refused'}; an op available in modes {modes:02b} {'must be refused' if want_raise else 'is legal'} in mode {target:02b}", vm.where, fact={"raised": raised is not None})
+    # ordering inside _compile_impl
+    body = f.node.body
+    first = [s for s in body if not (isinstance(s, ast.Expr) and isinstance(s.value, ast.Constant))][0]
+    t = u(first.test) if isinstance(first, ast.If) else ""
+    ok = isinstance(first, ast.If) and "MIN_PROGRAM_VERSION <= self.version <= MAX_PROGRAM_VERSION" in t and "type(self.version) is not int" in t and any(isinstance(x, ast.Raise) and q.raise_type(x) == "TealInputError" for x in first.body)
+    ctx.check(ok, "R04.5", "_compile_impl:version-range-first", f"the first statement must refuse versions outside [MIN_PROGRAM_VERSION, MAX_PROGRAM_VERSION] and non-int versions with TealInputError; found `{t}`", f"{f.module.rel}:{first.lineno}", fact={"test": t})
+    from sa.astutil import try_const
+    comp_mod = ctx.model.module("pyteal.compiler.compiler")
+    okmin, vmin = try_const(ctx.model, comp_mod, comp_mod.assigns["MIN_PROGRAM_VERSION"])
+    okmax, vmax = try_const(ctx.model, comp_mod, comp_mod.assigns["MAX_PROGRAM_VERSION"])
+    ctx.check(okmin and okmax and vmin == avm.MIN_PROGRAM_VERSION and vmax <= avm.MAX_AVM_VERSION, "R04.5", "version-range-constants", f"accepted range [{vmin}, {vmax}] must lie inside the AVM's [{avm.MIN_PROGRAM_VERSION}, {avm.MAX_AVM_VERSION}]", "pyteal/compiler/compiler.py", fact={"min": vmin, "max": vmax})
+    sweeps = {}
+    for nm in ("verifyOpsForVersion", "verifyOpsForMode"):
+        found = q.calls_named(f.node, nm, into_nested=False)
+        if len(found) != 1:
+            ctx.bad("R04.5", f"_compile_impl:sweep-{nm}", f"_compile_impl must call {nm} exactly once on the final component list; found {len(found)} call(s)", f.where)
+            return
+        sweeps[nm] = found[0]
+    cv, cm = sweeps["verifyOpsForVersion"], sweeps["verifyOpsForMode"]
+    fl = q.one(q.calls_named(f.node, "flattenSubroutines", into_nested=False), "_compile_impl: flattenSubroutines")
+    asm = [c for c in q.calls_named(f.node, "assemble", into_nested=False)]
+    asm = q.one(asm, "_compile_impl: assemble")
+    for name, c, arg2 in (("version", cv, "options.version"), ("mode", cm, "options.mode")):
+        ok = u(c.args[0]) == "components" and u(c.args[1]) == arg2 and not q.nguards(c, ("branch",)) and q.dominates(c, asm) and fl.lineno < c.lineno
+        ctx.check(ok, "R04.5", f"_compile_impl:sweep-{name}", f"verifyOpsFor{name.capitalize()}(components, {arg2}) must run unconditionally on the flattened component list before assembly; found `{u(c)}` under {q.nguards(c, ('branch',))}", f"{f.module.rel}:{c.lineno}", fact={"call": u(c)})
+    # nothing but the constants pass and the pragma prefix touches `components` after the sweep
+    later = [n for n in walk_local(f.node) if isinstance(n, ast.Assign) and u(n.targets[0]) == "components" and n.lineno > cm.lineno]
+    srcs = sorted(u(n.value) for n in later)
+    ctx.check(srcs == ["componentsPrefix + components", "createConstantBlocks(components)"], "R04.5", "_compile_impl:after-sweep", f"after the sweep the component list may only be passed through createConstantBlocks and prefixed with the pragma; found {srcs}", f.where, fact={"assignments": srcs})
+    cb = q.one(q.calls_named(f.node, "createConstantBlocks", into_nested=False), "_compile_impl: createConstantBlocks")
+    gs = q.nguards(cb)
+    need3 = max(avm.OPS["pushint"]["v"], avm.OPS["pushbytes"]["v"])
+    ok = ("self.assemble_constants", True) in gs and ("self.version < 3", False) in gs and need3 == 3
+    ctx.check(ok, "R04.5", "_compile_impl:constants-need-v3", f"createConstantBlocks (which emits pushint/pushbytes, AVM v{need3}) must be reached only with assemble_constants and version >= 3; guards {gs[-3:]}", f"{f.module.rel}:{cb.lineno}", fact={"guards": gs[-3:]})
+    # the pragma carries the compiled version
+    tp = [c for c in q.calls_named(f.node, "TealPragma", into_nested=False) if any(k.arg == "version" for k in c.keywords)]
+    ctx.check(len(tp) == 1 and u([k.value for k in tp[0].keywords if k.arg == "version"][0]) == "self.version", "R04.5", "_compile_impl:pragma-version", "the program must open with TealPragma(version=self.version)", f.where, fact={})
+    pre = [n for n in walk_local(f.node) if isinstance(n, ast.Assign) and u(n.targets[0]) == "components" and u(n.value) == "componentsPrefix + components"]
+    ctx.check(len(pre) == 1, "R04.5", "_compile_impl:pragma-first", "the pragma prefix must be placed in front of the components", f.where, fact={})
+    ctx.require_min("R04.5", 30)
+
+
+def r04_6_placeholders(ctx):
+    ctx.rule("R04.6", "no placeholder survives: TealOp.assemble refuses ScratchSlot and SubroutineDefinition arguments; assignSlot / resolveSubroutine rewrite every matching argument; resolveSubroutines visits every op of every routine for every subroutine")
+    c = ctx.model.find_class("TealOp", "pyteal.ir.tealop")
+    asm = c.methods["assemble"]
+    ctx.analysed(asm.fq)
+    slot = Sym("slot", attrs={"$isa": {"ScratchSlot"}})
+    sub = Sym("subdef", attrs={"$isa": {"SubroutineDefinition"}})
+    lab = Sym("labelref", attrs={"$isa": {"LabelReference"}}, methods={"getLabel": lambda: "main_l1"})
+    for name, args, want in (("slot", [3, slot], "raise"), ("subroutine", [sub], "raise"), ("slot-first", [slot, 1], "raise"), ("ints", [1, 2], "x 1 2"), ("label", [lab], "x main_l1"), ("text", ["Fee"], "x Fee"), ("none", [], "x")):
+        selfs = Sym("self", attrs={"op": "x", "args": list(args)})
+        try:
+            val, _ = run_function(asm.node, {"self": selfs}, lambda e, me: (_ for _ in ()).throw(Unknown()), asm.fq, permissive=True)
+            out = val
+        except Raised as r:
+            out = "raise" if "TealInternalError" in r.exc_text else "raise:" + r.exc_text[:30]
+        except (AnalysisError, TypeError) as ex:
+            out = f"no PyTeal error (the placeholder object reaches the text assembly: {str(ex)[:60]})"
+        ctx.check(out == want, "R04.6", f"TealOp.assemble[{name}]", f"assemble of an op with arguments {args!r} gives {out!r}; expected {want!r}", asm.where, fact={"out": str(out)})
+    for mname, other in (("assignSlot", 7), ("resolveSubroutine", "label_0")):
+        f = c.methods[mname]
+        ctx.analysed(f.fq)
+        target = Sym("placeholder")
+        selfs = Sym("self", attrs={"args": [target, 5, target, "x"]})
+        run_function(f.node, {"self": selfs, f.params()[1]: target, f.params()[2]: other}, lambda e, me: (_ for _ in ()).throw(Unknown()), f.fq)
+        ctx.check(selfs.attrs["args"] == [other, 5, other, "x"], "R04.6", f"TealOp.{mname}", f"{mname} must replace every occurrence of the placeholder and nothing else; args became {selfs.attrs['args']!r}", f.where, fact={"args": repr(selfs.attrs["args"])})
+    rs = ctx.model.find_func("resolveSubroutines", "pyteal.compiler.subroutines")
+    ctx.analysed(rs.fq)
+    calls = []
+    s1 = Sym("sub1", attrs={"id": 5}, methods={"name": lambda: "my sub!"})
+    s2 = Sym("sub2", attrs={"id": 2}, methods={"name": lambda: "my_sub!"})
+    s3 = Sym("sub3", attrs={"id": 9}, methods={"name": lambda: "mysub_0"})
+
+    def mk(n):
+        o = Sym(n)
+        o.methods["resolveSubroutine"] = lambda s, l, o=o: calls.append((o.name, s.name, l))
+        return o
+
+    ops = {None: [mk("m0"), mk("m1")], s1: [mk("a0")], s2: [mk("b0"), mk("b1")], s3: [mk("c0")]}
+    import re as _re
+
+    def oracle(e, me):
+        if isinstance(e, ast.Call) and u(e.func) == "re.sub":
+            a = [me.ev(x) for x in e.args]
+            return _re.sub(*a)
+        if u(e) == "OrderedDict":
+            return dict
+        raise Unknown()
+
+    val, _ = run_function(rs.node, {"subroutineMapping": ops}, oracle, rs.fq)
+    labels = dict(val)
+    ctx.check(len(set(labels.values())) == 3 and all(_re.fullmatch(r"[A-Za-z0-9]*_\d+", l) for l in labels.values()), "R04.7", "resolveSubroutines:labels-unique", f"subroutine labels {sorted(labels.values())} must be pairwise distinct and of the form <alnum>_<index> although the sanitised names coincide", rs.where, fact={"labels": {k.name: v for k, v in labels.items()}})
+    ctx.check([k.name for k in labels] == ["sub2", "sub1", "sub3"], "R04.7", "resolveSubroutines:order-by-id", f"label indices must follow the subroutine ids (creation order); order is {[k.name for k in labels]}", rs.where, fact={})
+    want_calls = {(o.name, s.name, labels[s]) for lst in ops.values() for o in lst for s in (s1, s2, s3)}
+    ctx.check(set(calls) == want_calls, "R04.6", "resolveSubroutines:every-op", f"every op of every routine must be offered every (subroutine, label) pair; {len(want_calls - set(calls))} pairs missing, {len(set(calls) - want_calls)} unexpected", rs.where, fact={"calls": len(calls)})
+    ctx.require_min("R04.6", 10)
+
+
+def r04_7_labels(ctx):
+    ctx.rule("R04.7", "labels are defined once: per-routine branch labels get a routine-unique prefix (main_ / <subroutine label>_) applied to the shared LabelReference objects, the subroutine label line uses the resolved label, and routines are concatenated main first")
+    f = ctx.model.find_func("flattenSubroutines", "pyteal.compiler.flatten")
+    ctx.analysed(f.fq)
+    out_prefix = []
+
+    def mklabel(name):
+        ref = Sym("ref:" + name, attrs={"label": name})
+        ref.methods["addPrefix"] = lambda p, ref=ref: ref.attrs.__setitem__("label", p + ref.attrs["label"])
+        return Sym("label:" + name, attrs={"$isa": {"TealLabel", "TealComponent"}}, methods={"getLabelRef": lambda: ref}), ref
+
+    def mkop(name, ref=None):
+        return Sym("op:" + name, attrs={"$isa": {"TealOp", "TealComponent"}, "ref": ref})
+
+    ml, mref = mklabel("l1")
+    al, aref = mklabel("l1")
+    bl, bref = mklabel("l1")
+    sa_, sb_ = Sym("subA", methods={"name": lambda: "a", "get_declaration_by_option": lambda fp: "declA"}), Sym("subB", methods={"name": lambda: "b", "get_declaration_by_option": lambda fp: "declB"})
+    mapping = {None: [mkop("m0", mref), ml, mkop("m1")], sa_: [mkop("a0", aref), al], sb_: [bl, mkop("b0", bref)]}
+    tolabel = {sa_: "a_0", sb_: "b_1"}
+    options = Sym("options", attrs={"use_frame_pointers": False})
+
+    def oracle(e, me):
+        if u(e) in ("TealLabel", "LabelReference"):
+            nm = u(e)
+            return lambda *a, **k: Rec("call", Rec("name", nm), list(a), k)
+        raise Unknown()
+
+    def setup(me):
+        me.isinstance_hook = lambda v, cname: (cname in v.attrs.get("$isa", ())) if isinstance(v, Sym) else (False if isinstance(v, Rec) else None)
+
+    val, _ = run_function(f.node, {"subroutineMapping": mapping, "subroutineToLabel": tolabel, "options": options}, oracle, f.fq, permissive=True, setup=setup)
+    q.need(isinstance(val, list), f"{f.fq}: does not return a list")
+    got_refs = [mref.attrs["label"], aref.attrs["label"], bref.attrs["label"]]
+    ctx.check(got_refs == ["main_l1", "a_0_l1", "b_1_l1"], "R04.7", "flattenSubroutines:prefixes", f"branch labels of the three routines became {got_refs}; expected main_l1, a_0_l1, b_1_l1 (each prefixed exactly once with its routine's prefix)", f.where, fact={"labels": got_refs})
+    names = [x.name if isinstance(x, Sym) else x.text for x in val]
+    want = ["op:m0", "label:l1", "op:m1", None, "op:a0", "label:l1", None, "label:l1", "op:b0"]
+    shape_ok = len(names) == len(want) and all(w is None or w == n for w, n in zip(want, names))
+    ctx.check(shape_ok, "R04.7", "flattenSubroutines:order", f"routines must be concatenated main first, then each subroutine behind its own label line; got {names}", f.where, fact={"components": names})
+    if shape_ok:
+        for idx, (lab, sub) in ((3, ("a_0", "a")), (6, ("b_1", "b"))):
+            r = val[idx]
+            ok = isinstance(r, Rec) and r.is_call("TealLabel") and len(r.args) >= 2 and isinstance(r.args[1], Rec) and r.args[1].is_call("LabelReference") and r.args[1].args == [lab]
+            ctx.check(ok, "R04.7", f"flattenSubroutines:subroutine-label[{sub}]", f"the label line of subroutine {sub} must define exactly its resolved label {lab}; got {r.text if isinstance(r, Rec) else r}", f.where, fact={})
+    ctx.require_min("R04.7", 4)
+
+
+def r04_8_has_return(ctx):
+    ctx.rule("R04.8", "has_return() is sound for every Expr class: it may be true only if every path through the construct ends in return/retsub/err (evaluated over all combinations of the children's has_return values)")
+    terminators = {"Return", "ExitProgram", "Err"}
+    n = 0
+    for c in ctx.model.iter_classes():
+        if not c.module.name.startswith("pyteal.ast") or "has_return" not in c.methods:
+            continue
+        f = c.methods["has_return"]
+        body = [s for s in f.node.body if not (isinstance(s, ast.Expr) and isinstance(s.value, ast.Constant))]
+        text = "; ".join(u(s) for s in body)
+        construct = f"{c.name}.has_return"
+        ctx.analysed(f.fq)
+        if text in ("return False", "pass"):
+            ctx.ok("R04.8", construct, "never claims to return", f.where)
+            continue
+        if text == "return True":
+            # must emit a terminator op unconditionally
+            teal = ctx.model.resolve_method(c, "__teal__")
+            ops = {n_.attr for n_ in ast.walk(teal.node) if isinstance(n_, ast.Attribute) and u(n_.value) == "Op"} if teal else set()
+            ctx.check(c.name in terminators and ops and ops <= {"return_", "retsub", "err"}, "R04.8", construct, f"{c.name} claims to always return but its lowering emits {sorted(ops)}", f.where, fact={"ops": sorted(ops)})
+            continue
+        # delegating / composite: evaluate over children
+        if c.name in ("Nonce", "Pragma", "SubroutineDeclaration"):
+            attr = "body" if c.name == "SubroutineDeclaration" else "child"
+            for v in (True, False):
+                child = Sym("child", methods={"has_return": lambda v=v: v})
+                val, _ = run_function(f.node, {"self": Sym("self", attrs={attr: child})}, lambda e, me: (_ for _ in ()).throw(Unknown()), f.fq)
+                ctx.check(val == v, "R04.8", f"{construct}[child={v}]", f"wrapper must delegate has_return to its child; child {v} gives {val}", f.where, fact={"value": val})
+            continue
+        if c.name == "Seq":
+            for combo in itertools.product((True, False), repeat=3):
+                for k in range(0, 4):
+                    kids = [Sym(f"k{i}", methods={"has_return": lambda v=v: v}) for i, v in enumerate(combo[:k])]
+                    val, _ = run_function(f.node, {"self": Sym("self", attrs={"args": kids})}, lambda e, me: (_ for _ in ()).throw(Unknown()), f.fq)
+                    sound = (not val) or any(combo[:k])
+                    ctx.check(sound, "R04.8", f"Seq.has_return[{combo[:k]}]", f"Seq of children returning {combo[:k]} claims has_return={val} although no element always returns", f.where, fact={"value": val})
+            continue
+        if c.name == "If":
+            for tv in (True, False):
+                for ev_ in (None, True, False):
+                    then = Sym("then", methods={"has_return": lambda tv=tv: tv})
+                    els = None if ev_ is None else Sym("else", methods={"has_return": lambda ev_=ev_: ev_})
+                    val, _ = run_function(f.node, {"self": Sym("self", attrs={"thenBranch": then, "elseBranch": els, "cond": Sym("c")})}, lambda e, me: (_ for _ in ()).throw(Unknown()), f.fq)
+                    sound = (not val) or (tv and ev_ is True)
+                    ctx.check(sound, "R04.8", f"If.has_return[then={tv},else={ev_}]", f"If claims has_return={val} with then={tv}, else={ev_}: a path falls through", f.where, fact={"value": val})
+            continue
+        if c.name == "Cond":
+            for combo in itertools.product((True, False), repeat=2):
+                args = [[Sym("c"), Sym("b", methods={"has_return": lambda v=v: v})] for v in combo]
+                val, _ = run_function(f.node, {"self": Sym("self", attrs={"args": args})}, lambda e, me: (_ for _ in ()).throw(Unknown()), f.fq)
+                sound = (not val) or all(combo)
+                ctx.check(sound, "R04.8", f"Cond.has_return[{combo}]", f"Cond with arm bodies returning {combo} claims has_return={val}", f.where, fact={"value": val})
+            continue
+        if c.name == "SubroutineFnWrapper":
+            ctx.ok("R04.8", construct, "delegates to the evaluated declaration (SubroutineDeclaration.has_return)", f.where)
+            continue
+        raise AnalysisError(f"{c.fq}.has_return has a form the rule does not know: `{text[:80]}`")
+    # the loops never claim to return (they can fall out when the condition is false)
+    for name in ("While", "For"):
+        c = ctx.model.find_class(name)
+        f = ctx.model.resolve_method(c, "has_return")
+        rets = q.returns_of(f.node)
+        ctx.check(all(u(r.value) == "False" for r in rets), "R04.8", f"{name}.has_return", "a loop can exit through its condition: has_return must be False", f.where, fact={})
+    ctx.require_min("R04.8", 60)
+
+
+import itertools  # noqa: E402
 
 
 def run(ctx):  # noqa: F811
+    r04_0_op_accessors(ctx)
     r04_1_op_table(ctx)
     r04_2_field_tables(ctx)
     r04_3_field_gating(ctx)
     r04_4_immediates(ctx)
+    r04_5_final_sweep(ctx)
+    r04_6_placeholders(ctx)
+    r04_7_labels(ctx)
+    from rules import c01 as _c01
+
+    _c01.r01_4_flatten(ctx)  # every branch target gets its label exactly once (shared with C01)
+    r04_8_has_return(ctx)
     return (
-        "Static comparison of PyTeal's op and field tables (extracted from the syntax tree) with an independent AVM "
-        "reference table; version/field gating, immediate provenance, final sweep, placeholder and label rules."
+        "Static comparison of PyTeal's op and field tables (extracted from the syntax tree) with an independent AVM reference table; version/field gating and immediate "
+        "provenance at every emission site; abstract evaluation of the final sweep, of assemble/assignSlot/resolveSubroutine(s), of label prefixing in flattenSubroutines and "
+        "of every has_return() over all child combinations; ordering (must-pass-through) in _compile_impl."
     )
